@@ -369,6 +369,9 @@ Proof.
   - eapply e4_inv_cancel; eauto.
   - eapply e4_inv_resume_cancelled; eauto.
   - eapply e4_inv_resume_read_fail; eauto.
+  - injection H as <-. unfold close. now apply e4_inv_crash.
+  - unfold close_ok in H. destruct (persist_ok s) as [s1|] eqn:P; [|discriminate]. injection H as <-.
+    apply e4_inv_crash. eapply e4_inv_persist; eauto.
 Qed.
 
 Lemma e4_inv_init : e4_Inv init.
